@@ -98,14 +98,15 @@ Fixpoint ser (v : jvalue) : list N :=
 (** bytes a number token may contain: digits + - . e E *)
 Definition numchar (c : N) : bool :=
   ((48 <=? c) && (c <=? 57)) || (c =? 43) || (c =? 45) || (c =? 46) || (c =? 101) || (c =? 69).
-(** JSON number grammar (optional minus, 0 or digits without leading zero, optional fraction, optional exponent) as an automaton; state 9 = dead *)
+(** number tokens go-json takes: a minus or a digit first, then what strconv.ParseFloat accepts in decimal (optional minus,
+    digits with an optional point — at least one digit —, optional exponent with at least one digit). This is JSON's grammar
+    plus leading zeros, "1." and "-.5". As an automaton; state 9 = dead *)
 Definition isdig (c : N) : bool := (48 <=? c) && (c <=? 57).
 Definition num_step (st : N) (c : N) : N :=
   match st with
-  | 0 => if c =? 45 then 1 else if c =? 48 then 2 else if isdig c then 3 else 9
-  | 1 => if c =? 48 then 2 else if isdig c then 3 else 9
-  | 2 => if c =? 46 then 4 else if (c =? 101) || (c =? 69) then 6 else 9
-  | 3 => if isdig c then 3 else if c =? 46 then 4 else if (c =? 101) || (c =? 69) then 6 else 9
+  | 0 => if c =? 45 then 1 else if isdig c then 3 else 9
+  | 1 => if isdig c then 3 else if c =? 46 then 4 else 9
+  | 3 => if isdig c then 3 else if c =? 46 then 5 else if (c =? 101) || (c =? 69) then 6 else 9
   | 4 => if isdig c then 5 else 9
   | 5 => if isdig c then 5 else if (c =? 101) || (c =? 69) then 6 else 9
   | 6 => if (c =? 43) || (c =? 45) then 7 else if isdig c then 8 else 9
@@ -114,10 +115,10 @@ Definition num_step (st : N) (c : N) : N :=
   | _ => 9
   end.
 Definition num_final (st : N) : bool :=
-  match st with 2 | 3 | 5 | 8 => true | _ => false end.
+  match st with 3 | 5 | 8 => true | _ => false end.
 Definition numtok (t : list N) : bool := forallb numchar t && num_final (fold_left num_step t 0).
 
-(** well-formed value: every number token is a JSON number (what strconv produces for ints and finite floats) *)
+(** well-formed value: every number token is one go-json reads (what strconv produces for ints and finite floats included) *)
 Fixpoint wfv (v : jvalue) : bool :=
   match v with
   | JNum tok => numtok tok
@@ -565,6 +566,19 @@ Definition renum_any (t : list N) : list N :=
   end.
 
 
+(** a number token beyond the float64 range makes strconv.ParseFloat fail: the reader dies on the title line *)
+Definition tok_finite (t : list N) : bool :=
+  match tok_parts t with
+  | (_, M, E10) => if M =? 0 then true else (fe (to_f64_dec M E10) <=? 971)%Z
+  end.
+Fixpoint nums_finite (v : jvalue) : bool :=
+  match v with
+  | JNum t => tok_finite t
+  | JArr l => forallb nums_finite l
+  | JObj m => forallb (fun kv => nums_finite (snd kv)) m
+  | _ => true
+  end.
+
 (** the number path of the reader followed by the writer. Integer tokens go through the integer transcription above (about
     which C02_int_tokens_fixed is proved), every other token through the general one. Defensive: the result is always a
     number token. *)
@@ -928,7 +942,15 @@ Definition check (c : ccase) : bool :=
   | CDec b b2 => match jdec renum64 b with Some v' => nlist_eqb (ser v') b2 | None => false end
   | CHdr guessed strict d fatal enc =>
     match (if guessed then read_guessed (jdec renum64) else read_header (jdec renum64)) (mkp [] d [] None) with
-    | RRec r => negb fatal && nlist_eqb (header_info (w_ann r)) enc
+    | RRec r =>
+      (* [jdec] keeps a number token beyond the float64 range as it is, the real reader dies on it: exactly then *)
+      let finite := match scan_obj d with
+                    | Some (a, b) => match jdec0 (slice a b d) with Some v => nums_finite v | None => true end
+                    | None => true
+                    end in
+      if (if guessed then match d with c0 :: _ => if c0 =? 123 then finite else true | [] => true end else finite)
+      then negb fatal && nlist_eqb (header_info (w_ann r)) enc
+      else fatal
     | RFatal => negb strict      (* the model refuses: go-json may be more lenient (not modelled) unless the generator vouches for the text *)
     | ROther => negb strict
     end
